@@ -231,7 +231,7 @@ def rand_node(rng, ids, depth, kind=None):
     if kind == "tag":
         n = rng.choice([0, 1, 2, 3, 4])
         return gen.TAG(rng.choice(lg.BLOCKS + lg.INLINES + ["br", "hr", "img", "script", "style", "head", "body"]), *[rand_node(rng, ids, depth - 1) for _ in range(n)],
-                       ws=rng.random() < 0.5, how=rng.choice(gen.HOWS), via_fn=False)
+                       ws=rng.random() < 0.5, how=rng.choice(gen.HOWS), via_fn=False, **({"subclass": True} if rng.random() < 0.06 else {}))
     if kind == "empty":
         return rng.choice([{"k": "text", "s": ""}, {"k": "html", "s": ""}])
     if kind == "text":
@@ -244,7 +244,7 @@ def rand_node(rng, ids, depth, kind=None):
         return {"k": "meta"}
     if kind == "dep":
         return {"k": "dep", "name": rng.choice(["da", "db", "dc"]), "version": rng.choice(["1.0", "1.10", "1.9"]),
-                "script": [{"src": ids.next("f") + ".js"}]}
+                "script": [{"src": ids.next("f") + ".js"}], "sub": rng.random() < 0.15, "version_object": rng.random() < 0.15}
     if kind == "list":
         return {"k": "list", "t": rng.choice(["list", "tuple", "taglist"]), "c": [rand_node(rng, ids, depth - 1) for _ in range(rng.randint(0, 3))]}
     if kind in ("tf", "tfobj"):
